@@ -194,9 +194,31 @@ def r3_shape(ck, cx):
     ck.ob('R3', gen.qn, 'reflected CRC-16 polynomial constant is 0xA001', polys == [0xA001], detail='crc-poly %s' % polys, loc=cx.floc(gen))
 
 
+def r2_delivered_range_is_declared_range(ck, cx):
+    """TCP has no checksum: what protects a frame is that the bytes handed to the decoder are exactly the ones the MBAP
+    length declares and that were waited for -- getFrame's range (shared with C03 R2)"""
+    from . import c03
+    sub = type(ck)(ck.pid, ck.tier)
+    builds = sub.guard(c03.r1_build, sub, cx) or {}
+    sub.findings = []
+    sub.obligations = []
+    sub.guard(c03.r2_agreement, sub, cx, builds)
+    n = 0
+    for o in sub.obligations:
+        if 'getFrame' in str(o[2]) or 'advanceFrame' in str(o[2]):
+            ck.obligations.append(('R2',) + tuple(o[1:]))
+            n += 1
+    for f in sub.findings:
+        if f.detail.startswith(('getFrame-range', 'advance')):
+            ck.finding('R2', f.construct, f.detail, f.loc, f.message + ' — the bytes delivered are not the bytes the header declares')
+    ck.broken += sub.broken
+    ck.floor('R2', n, 4, 'getFrame / advanceFrame range obligations')
+
+
 def run(ck, tier):
     cx = Ctx()
     ck.guard(r1_r2, ck, cx)
     ck.guard(r3_shape, ck, cx)
+    ck.guard(r2_delivered_range_is_declared_range, ck, cx)
     ck.assume('which corruptions CRC-16 / LRC detect is the mathematics of the codes and is not decided; nor is the arithmetic inside computeCRC/computeLRC beyond the constants')
     return cx.idx
